@@ -436,6 +436,9 @@ func runC07(c *core.Ctx) {
 	}
 
 	docs := world.BaseDocs()
+	// numeric leaves at root, nested and list-element positions (the nasty graph holds floats beyond float32)
+	docs = append(docs, world.Q(world.F("f"), world.F("a", world.F("f"), world.F("i")), world.F("kids", world.F("f")), world.F("ints")))
+	nBases := len(docs)
 	if c.Thorough() {
 		docsWithin(c, s, world.BaseDocs(), 1, 0, func(d *world.Doc, dist int) bool {
 			if dist > 0 {
@@ -451,7 +454,7 @@ func runC07(c *core.Ctx) {
 			completed = false
 			break
 		}
-		isBase := di < len(world.BaseDocs())
+		isBase := di < nBases
 		for layout := world.Layout(0); layout < world.NLayouts; layout++ {
 			if !isBase && layout != world.LLines && layout != world.LTight {
 				continue
